@@ -361,6 +361,10 @@ func TestVerifC12(t *testing.T) {
 			if k%5 == 3 && n > 20 {
 				rec = append(append([]Fragment{}, fs[:18]...), fs[2:]...) // replay from 16 fragments earlier
 			}
+			if k%5 == 2 && n > 17 {
+				// the START fragment again exactly when its number is the expected one (16 later)
+				rec = append(append([]Fragment{}, fs[:16]...), fs...)
+			}
 			if k%9 == 8 {
 				// the whole train twice / a failure fragment of the peer in between
 				rec = append(append([]Fragment{}, fs...), fs...)
